@@ -415,3 +415,151 @@ func c08FilterOnly(t failer, c *c08Case) {
 		violation(t, "C08", "TestC08_Twins", c, "Filter(%s) selects differently on twins: kept %q (err %v) vs %q (err %v)\n d1: %s\n d2: %s", c.TextQ, k1, e1, k2, e2, c.Datum, c.Twin)
 	}
 }
+
+// TestC08_Wide: structs with 65..300 fields (generated code, database rows). Hidden (`-`-tagged
+// under the active tag name), unexported and renamed fields sit at drawn positions - mostly past
+// the 64th field; the twins differ in every hidden field; expressions name hidden fields by
+// their Go names and visible fields on both sides of them, directly, through a pointer, a slice
+// element and a quantifier alias.
+func TestC08_Wide(t *testing.T) {
+	r := rec(t, "C08", c08Rule+"; TestC08_Wide: structs of 65..300 fields with hidden / unexported / renamed fields at drawn positions (mostly >= 64), twins differing in all hidden fields")
+	rapid.Check(t, func(t *rapid.T) {
+		n := []int{65, 66, 70, 100, 128, 129, 130, 200, 257, 300}[rapid.IntRange(0, 9).Draw(t, "fields")]
+		o := Opts{}
+		tag := "bexpr"
+		if rapid.IntRange(0, 2).Draw(t, "alttag") == 0 {
+			o.Tag, tag = uni.AltTag, uni.AltTag
+		}
+		if rapid.IntRange(0, 3).Draw(t, "unk") == 0 {
+			o.HasUnknown, o.Unknown = true, uni.Str("u")
+		}
+		intT, strT := uni.Scalar(uni.KInt), uni.Scalar(uni.KString)
+		fields := make([]uni.Field, n)
+		var hidden, visible []int
+		for i := range fields {
+			f := uni.Field{Name: "F" + strconv.Itoa(i), T: strT}
+			if i%3 == 0 {
+				f.T = intT
+			}
+			k := rapid.IntRange(0, 19).Draw(t, "fieldKind")
+			if i >= 60 && i <= 70 || i >= 126 && i <= 130 {
+				k = rapid.IntRange(0, 5).Draw(t, "fieldKindNearBoundary")
+			}
+			switch k {
+			case 0, 1:
+				f.Tag = tag + `:"-"`
+				hidden = append(hidden, i)
+			case 2:
+				f.Name = "f" + strconv.Itoa(i) // unexported
+			case 3:
+				f.Tag = tag + `:"r` + strconv.Itoa(i) + `"`
+				visible = append(visible, i)
+			case 4:
+				f.Tag = tag + `:",omitempty"`
+			default:
+				visible = append(visible, i)
+			}
+			fields[i] = f
+		}
+		st := uni.StructOf(fields...)
+		mkVal := func(salt int) *uni.Node {
+			v := &uni.Node{T: st, Elems: make([]*uni.Node, n)}
+			for i, f := range fields {
+				h := hiddenUnder(f, tag)
+				s := 0
+				if h {
+					s = salt
+				}
+				if f.T.K == uni.KInt {
+					v.Elems[i] = uni.Int(uni.KInt, int64(i%5+s))
+				} else {
+					v.Elems[i] = uni.Str("s" + strconv.Itoa(i%5+s))
+				}
+			}
+			return v
+		}
+		wrap := rapid.IntRange(0, 3).Draw(t, "wrap")
+		build := func(salt int) (*uni.Node, []string) {
+			v := mkVal(salt)
+			switch wrap {
+			case 0:
+				return v, nil
+			case 1:
+				return uni.Ptr(v), nil
+			case 2:
+				return &uni.Node{T: uni.MapOf(strT, uni.Iface()), Keys: []*uni.Node{uni.Str("row")}, Elems: []*uni.Node{uni.InIface(v)}}, []string{"row"}
+			}
+			return &uni.Node{T: uni.MapOf(strT, uni.SliceOf(st)), Keys: []*uni.Node{uni.Str("rows")}, Elems: []*uni.Node{uni.List(uni.SliceOf(st), v, mkVal(salt+1))}}, []string{"rows", "0"}
+		}
+		root, prefix := build(0)
+		tw, _ := build(7)
+		pickFrom := func(xs []int, label string) int {
+			if len(xs) == 0 {
+				return rapid.IntRange(0, n-1).Draw(t, label+"Any")
+			}
+			// mostly the late ones
+			if rapid.IntRange(0, 3).Draw(t, label+"Late") > 0 {
+				return xs[len(xs)-1-rapid.IntRange(0, min(len(xs)-1, 5)).Draw(t, label+"FromEnd")]
+			}
+			return xs[rapid.IntRange(0, len(xs)-1).Draw(t, label)]
+		}
+		fieldSel := func(i int, byGoName bool) []string {
+			name := fields[i].Name
+			if !byGoName {
+				if tv := fields[i].TagValue(tag); tv != "" && tv != "-" && !strings.HasPrefix(tv, ",") {
+					name = tv
+				}
+			}
+			return append(append([]string(nil), prefix...), name)
+		}
+		match := func(parts []string, i int) bx.Expr {
+			lit := "s" + strconv.Itoa(i%5+7)
+			if fields[i].T.K == uni.KInt {
+				lit = strconv.Itoa(i%5 + 7)
+			}
+			ops := []bx.Op{bx.OpEq, bx.OpNe, bx.OpEq}
+			if fields[i].T.K == uni.KString {
+				ops = []bx.Op{bx.OpEq, bx.OpNe, bx.OpIn, bx.OpMatches, bx.OpEmpty}
+			}
+			return &bx.Match{Sel: bx.Sel{Parts: parts}, Op: ops[rapid.IntRange(0, len(ops)-1).Draw(t, "op")], Lit: lit}
+		}
+		h := pickFrom(hidden, "hidden")
+		v := pickFrom(visible, "visible")
+		var e bx.Expr
+		switch rapid.IntRange(0, 3).Draw(t, "form") {
+		case 0:
+			e = match(fieldSel(h, true), h) // the twin's value of the hidden field
+		case 1:
+			e = &bx.Or{L: match(fieldSel(h, true), h), R: match(fieldSel(v, false), v)}
+		case 2:
+			e = &bx.And{L: match(fieldSel(v, false), v), R: &bx.Not{X: match(fieldSel(h, true), h)}}
+		default:
+			if wrap == 3 {
+				e = &bx.Quant{All: rapid.Bool().Draw(t, "all"), Sel: bx.Sel{Parts: []string{"rows"}}, Mode: bx.BindValue, Value: "rw",
+					Body: match([]string{"rw", fields[h].Name}, h)}
+			} else {
+				e = match(fieldSel(v, true), v)
+			}
+		}
+		if !expressibleAll(e) {
+			return
+		}
+		c := &c08Case{EvalCase: *newEvalCase("", e, root, o), Twin: tw}
+		out, _ := c08Check(t, c, chooser(t))
+		r.Case(bx.String(e)+"\x00"+strconv.Itoa(n)+fmt.Sprint(hidden)+o.String()+strconv.Itoa(wrap), h >= 64, map[string]string{"expr": bx.String(e), "fields": strconv.Itoa(n), "hidden_at": fmt.Sprint(hidden),
+			"named_hidden": strconv.Itoa(h), "opts": o.String(), "outcome": out.String()}, fmt.Sprintf("fields:%d", n), "tag:"+tag, fmt.Sprintf("hidden>=64:%v", h >= 64))
+	})
+}
+
+func expressibleAll(e bx.Expr) bool {
+	ok := true
+	bx.Walk(e, func(x bx.Expr) {
+		switch n := x.(type) {
+		case *bx.Match:
+			ok = ok && bx.Expressible(n.Sel)
+		case *bx.Quant:
+			ok = ok && bx.Expressible(n.Sel)
+		}
+	})
+	return ok
+}
